@@ -78,6 +78,8 @@ type Adapter struct {
 	// EncodeTries > 1 repeats Encode on the same frame (tars re-encodes through
 	// Go maps: the order of map entries differs from run to run).
 	EncodeTries func(c Case) int
+	// UnstableDiff is the DiffClass of that run-to-run difference ("" if none).
+	UnstableDiff string
 
 	// --- modification checks
 	// RefView reads a frame with the reference parser; n is the parsed length.
@@ -91,6 +93,24 @@ type Adapter struct {
 	MustAccept func(c Case, v View) bool
 	// Representable reports whether the modified content fits the wire format.
 	Representable func(c Case, v View) bool
+}
+
+// CacheBuild memoises the last result of build: the twin cases (buffer left
+// alone / overwritten) and the classification re-run ask for the same frame.
+// The driver never writes into the slices Build returns.
+func CacheBuild(build func(c Case) (in, want []byte)) func(c Case) (in, want []byte) {
+	var last Case
+	var lin, lwant []byte
+	valid := false
+	return func(c Case) ([]byte, []byte) {
+		c.Scribble = false
+		if valid && c == last {
+			return lin, lwant
+		}
+		lin, lwant = build(c)
+		last, valid = c, true
+		return lin, lwant
+	}
 }
 
 func newCtx(a *Adapter, c Case) context.Context {
@@ -222,15 +242,25 @@ func CheckFidelity(p *vreport.Part, a *Adapter, c Case) {
 			return
 		}
 	}
-	res, detail := fidelityOnce(a, c, in, want, c.Scribble)
+	tries := 1
+	if a.EncodeTries != nil && !c.Scribble {
+		// repetition (run-to-run differences of the encoder) is the business of the
+		// case that leaves the buffer alone; the twin decides about aliasing only
+		tries = a.EncodeTries(c)
+	}
+	res, detail := fidelityOnce(a, c, in, want, c.Scribble, tries)
 	switch {
 	case res == "ok":
 		p.Outcome("identical")
+	case c.Scribble && a.UnstableDiff != "" && res == a.UnstableDiff:
+		// a run-to-run difference of the encoder, unrelated to the buffer: reported
+		// (deterministically, by repetition) by the twin case
+		p.Outcome("differs-anyway")
 	case c.Scribble && !strings.HasPrefix(res, "decode"):
 		// does the same frame survive when the read buffer is left alone?
 		in2, want2 := a.Build(c)
-		res2, _ := fidelityOnce(a, c, in2, want2, false)
-		if res2 == "ok" {
+		res2, _ := fidelityOnce(a, c, in2, want2, false, 1)
+		if res2 == "ok" || (a.UnstableDiff != "" && res2 == a.UnstableDiff) {
 			p.Outcome("changed-by-buffer-reuse")
 			p.Violation(a.key(c, "forwarded-frame-changes-when-read-buffer-is-reused"), detail, c)
 		} else {
@@ -245,7 +275,7 @@ func CheckFidelity(p *vreport.Part, a *Adapter, c Case) {
 	}
 }
 
-func fidelityOnce(a *Adapter, c Case, in, want []byte, scrib bool) (res, detail string) {
+func fidelityOnce(a *Adapter, c Case, in, want []byte, scrib bool, tries int) (res, detail string) {
 	rb := make([]byte, 0, len(in)+len(a.Trailer))
 	rb = append(append(rb, in...), a.Trailer...)
 	data := buffer.NewIoBufferBytes(rb)
@@ -270,10 +300,6 @@ func fidelityOnce(a *Adapter, c Case, in, want []byte, scrib bool) (res, detail 
 	}
 	if scrib {
 		scribble(rb)
-	}
-	tries := 1
-	if a.EncodeTries != nil {
-		tries = a.EncodeTries(c)
 	}
 	for t := 0; t < tries; t++ {
 		var out []byte
